@@ -64,6 +64,11 @@ Fixpoint plain_cmd (k : N) (c : cmd) {struct c} : bool :=
   | CFor _ _ body => plain_list k body
   | CCase _ items => plain_items k items
   | CAsync a => plain_andor k a
+  | CPrefixCall _ _ nm args =>
+      match nm with
+      | NProbe => negb (N.eqb (hd 0%N args) k)
+      | _ => true
+      end
   | CFunDef nm body => negb (name_eqb nm NProbe) && plain_cmd k body
   | CTrapExit _ => false
   | CRedirFail c => plain_cmd k c
